@@ -46,7 +46,9 @@ is_ipv4 (const char *start, const char *end)
                 return (NO);
             }
             /* XXX Allow 0.0.0.0 but not 0.1.2.3 */
-            if (byte_count == 1 && byte_val == 0 && start[strspn(start, "0.")]) {
+            if (byte_count == 1 && byte_val == 0 &&
+                strspn (start, "0.") < (size_t) (end - start))
+            {
                 return (NO);
             }
             /* try next byte */
